@@ -185,10 +185,14 @@ FILE* fopen64(const char* path, const char* mode) { return doFopen(path, mode, "
 
 ssize_t write(int fd, const void* buf, size_t n) {
   auto& i = ip();
-  if (i.active && fd > 2 && i.onWrite) {
+  if (i.active && fd > 2 && (i.onWrite || i.onWriteErr)) {
     std::string p = fdPath(fd);
     if ((!i.kmsgPath.empty() && p == i.kmsgPath) || ours(p)) {
-      i.onWrite(p, std::string((const char*)buf, n));
+      if (i.onWriteErr) {
+        int e = i.onWriteErr(p, std::string((const char*)buf, n));
+        if (e > 0) { errno = e; return -1; }
+      }
+      if (i.onWrite) i.onWrite(p, std::string((const char*)buf, n));
     }
   }
   return syscall(SYS_write, fd, buf, n);
